@@ -20,6 +20,14 @@ MODULES = [
 ]
 
 STANDINS = [
+    {"name": "selftest_calendar", "module": "standins.selftest", "args": ["--part", "calendar"],
+     "props": ["C08", "C09"], "timeout": {"quick": 900, "thorough": 7200}},
+    {"name": "selftest_regex", "module": "standins.selftest", "args": ["--part", "regex"],
+     "props": ["C07"], "timeout": {"quick": 900, "thorough": 7200}},
+    {"name": "selftest_reldelta", "module": "standins.selftest", "args": ["--part", "reldelta"],
+     "props": ["C04"], "timeout": {"quick": 900, "thorough": 3600}},
+    {"name": "selftest_converters", "module": "standins.selftest", "args": ["--part", "converters"],
+     "props": ["C15"], "timeout": {"quick": 900, "thorough": 3600}},
     {"name": "front_en_abs", "module": "standins.front_en", "args": ["--part", "abs"],
      "props": ["C01"], "timeout": {"quick": 900, "thorough": 3600}},
     {"name": "front_en_relative", "module": "standins.front_en", "args": ["--part", "relative"],
